@@ -796,7 +796,11 @@ theorem C18_unknown_criterion {α : Type} (period : Int) (tol : Option α) (i : 
     (EarlyStopping.new period tol (.int i) .other name criterion : Except PyErr (EarlyStopping α)) = .error .TypeError := by
   simp [EarlyStopping.new, PatArg.toInt, criterionOfString, h1, h2, h3]
 
-/-- **C18 deprecated class.** `VarianceBasedEarlyStopping(period, tol, patience, evaluator, name, variance_name)`
+/-- **C18 deprecated class.** (Conjuncts 1-2 hold BY CONSTRUCTION of the model — `VarianceBasedEarlyStopping.new` is defined as
+`EarlyStopping.new … "variance"` and never looks at `variance_name`; a subclass overriding `on_epoch_end` or reading `variance_name`
+cannot be expressed in it.  The tie to the code is the correspondence: oracle `EarlyStopping/deprecated-twin` and the runs of the
+deprecated class with every value of `variance_name` — 'std_error', 'mean', 'num_samples', … positionally and by keyword — against
+this model.)  `VarianceBasedEarlyStopping(period, tol, patience, evaluator, name, variance_name)`
 builds exactly the object `EarlyStopping(…, criterion="variance")` builds (same fields, hence the same
 decisions in every run, by `C18_first_stop`); `variance_name` is ignored; with an `ObservableEvaluator` that
 object has period, tolerance, `int(patience)`, name as given and the variance criterion. -/
@@ -811,6 +815,95 @@ theorem C18_deprecated_eq {α : Type} (period : Int) (tol : Option α) (pa : Pat
   refine ⟨rfl, rfl, ?_⟩
   have : normCriterion "variance" = "variance" := by decide
   simp [VarianceBasedEarlyStopping.new, EarlyStopping.new, PatArg.toInt, this, criterionOfString]
+
+/-! ### sessions: several consecutive `fit` calls on the same evaluator and stopper -/
+
+theorem evalPoints_append (pe : Int) (a b : List (Int × W)) : evalPoints pe (a ++ b) = evalPoints pe a ++ evalPoints pe b := by
+  simp [evalPoints]
+
+/-- **C18 sessions: a `fit` call keeps the evaluator in good order.**  Whatever the stopper decides, after a call of `fit` over `cands`
+(entered with the flag set or clear) the evaluator still `Monitors` the quantity, and its history is the earlier one plus the
+evaluation points of exactly the epochs that ran (`cands.take k`, the epochs whose `on_epoch_end` fired).  Hence `C18_first_stop`
+applies to the NEXT call on the same evaluator and stopper objects with `prev := prev ++ evalPoints pe (cands.take k)` and
+`last₀ :=` the stopper's `last_epoch` after this call: in a session of consecutive `fit` calls (`QV.Cb.sessionRun`, driver op
+`c18.session`) every call stops at the first checked epoch at which the documented rule holds on ALL evaluations made so far and at
+no earlier epoch — in particular a call that makes ONE evaluation compares it with the evaluation made `p` calls earlier. -/
+theorem C18_fit_keeps_monitoring (es : EarlyStopping ℝ) (evalFirst : Bool) {name : String} {Mof Vof : W → Num ℝ} {crit : Criterion}
+    (cands : List (Int × W)) :
+    ∀ (ev : AnyEval W ℝ) (prev : List (Int × W)) (st : StopState) (fired₀ : List Int) (r : FitState W ℝ),
+    Monitors name Mof Vof crit ev prev →
+    fitRun es evalFirst ⟨ev, st, fired₀⟩ cands = .ok r →
+    ∃ k, k ≤ cands.length ∧ r.fired = fired₀ ++ (cands.take k).map Prod.fst ∧ evalPeriod r.ev = evalPeriod ev ∧
+      Monitors name Mof Vof crit r.ev (prev ++ evalPoints (evalPeriod ev) (cands.take k)) := by
+  intro ev prev st fired₀ r hmon h
+  unfold fitRun at h
+  split at h
+  · cases h
+    exact ⟨0, by simp, by simp, rfl, by simpa [evalPoints] using hmon⟩
+  · clear * - hmon h
+    induction cands generalizing ev prev st fired₀ with
+    | nil =>
+      simp only [fitLoop, Except.ok.injEq] at h
+      subst h
+      exact ⟨0, by simp, by simp, rfl, by simpa [evalPoints] using hmon⟩
+    | cons y rest ih =>
+      obtain ⟨e, w⟩ := y
+      obtain ⟨ev', hev', hper, hmon'⟩ := monitors_step hmon e w
+      have hstep : ∀ s', epochEndBoth es evalFirst ⟨ev, st, fired₀⟩ e w = .ok s' → s'.ev = ev' ∧ s'.fired = fired₀ ++ [e] := by
+        intro s' hs'
+        unfold epochEndBoth at hs'
+        cases evalFirst with
+        | true =>
+          simp only [if_true, hev'] at hs'
+          split at hs'
+          · cases hs'
+          · cases hs'; exact ⟨rfl, rfl⟩
+        | false =>
+          simp only [Bool.false_eq_true, if_false] at hs'
+          split at hs'
+          · cases hs'
+          · simp only [hev'] at hs'
+            cases hs'; exact ⟨rfl, rfl⟩
+      unfold fitLoop at h
+      split at h
+      · cases h
+      · rename_i s' hs'
+        obtain ⟨h1, h2⟩ := hstep s' hs'
+        split at h
+        · cases h
+          refine ⟨1, by simp, by simp [h2], by rw [h1, hper], ?_⟩
+          rw [h1]; simpa using hmon'
+        · obtain ⟨ev2, st2, f2⟩ := s'
+          simp only at h1 h2
+          subst h1 h2
+          obtain ⟨k, hk, hf, hp, hm⟩ := ih _ (prev ++ evalPoints (evalPeriod ev) [(e, w)]) st2 _ hmon' h
+          refine ⟨k + 1, by simp [hk], by simp [hf], by rw [hp, hper], ?_⟩
+          rw [hper] at hm
+          have : evalPoints (evalPeriod ev) (List.take (k + 1) ((e, w) :: rest))
+              = evalPoints (evalPeriod ev) [(e, w)] ++ evalPoints (evalPeriod ev) (rest.take k) := by
+            rw [List.take_succ_cons, ← evalPoints_append]; rfl
+          rw [this, ← List.append_assoc]
+          exact hm
+
+/-- **C18 sessions: `clear_history()` between two calls.** The evaluator is in good order with the EMPTY history: the next call
+needs `p + 1` new evaluations before it may stop (`C18_needs_history`), whatever stale `last_epoch` the stopper holds. -/
+theorem C18_clear_history_monitors {name : String} {Mof Vof : W → Num ℝ} {crit : Criterion} {ev : AnyEval W ℝ}
+    {prev : List (Int × W)} (h : Monitors name Mof Vof crit ev prev) :
+    Monitors name Mof Vof crit ev.clearHistory [] ∧ evalPeriod ev.clearHistory = evalPeriod ev := by
+  cases ev with
+  | metric c s =>
+    obtain ⟨hp, hnd, hep, hf, hc, _⟩ := h
+    exact ⟨⟨hp, hnd, hep, hf, hc, by simp [EvalState.clearHistory, recordsOf]⟩, rfl⟩
+  | observable c s =>
+    obtain ⟨hp, hwf, hst, _⟩ := h
+    exact ⟨⟨hp, hwf, hst, by simp [EvalState.clearHistory, recordsOf]⟩, rfl⟩
+
+/-- a `fit` call entered with the stop flag still set does nothing (by construction of the model: `fitRun` tests the flag first,
+neural_state.py:558-559; tied to the code by the session cases that do not reset the flag — the session ends there) -/
+theorem C18_fit_entered_stopped {α : Type} [Sub α] [Div α] [Zero α] [BEq α] [LT α] [DecidableLT α] [Transc α]
+    (es : EarlyStopping α) (evalFirst : Bool) (ev : AnyEval W α) (last : Option Int) (fired : List Int) (cands : List (Int × W)) :
+    fitRun es evalFirst ⟨ev, ⟨true, last⟩, fired⟩ cands = .ok ⟨ev, ⟨true, last⟩, fired⟩ := by
+  simp [fitRun]
 
 /-! ### non-vacuity, the F7 regression witness and the (repaired) F8 witness -/
 
